@@ -1,18 +1,27 @@
 import S3V.Base.Bytes
 import S3V.Crypto.Base64
 import S3V.Model.FsPath
+import S3V.Model.FsPathSys
 import S3V.Spec.FsPath
+import S3V.Spec.FsPathSys
 /-!
 Driver for component `fspath` (C17).
 
 case line: `fspath id op bucket key src_bucket src_key upload_id part keys parts flags | code changed revealed upload_id outer cwd`
 (see `harness/src/bin/h_fspath.rs`). The model runs with the run's real `root = <outer>/root` and CWD (both reported by the harness).
 
+Component `fspathsys` (the same harness with `S3V_FSPATH_SYS=1`) appends one more output field `sys`: the path-taking system
+calls of the backend's process, `,`-joined `<phase><kind>:<path>` (phase `n` construction / `o` operation, kind `r l c w d`, path
+`@<hex relative to outer>` or `<hex absolute>`). Each access is judged by the spec (`FsPathSpec.judgeSys` / `judgeSysNew`) and
+must be predicted by the model (`FsPath.sysPredicted` over the operation's `plan` / `FsPath.newAllows`).
+
 Verdicts
 * SPECFAIL  — the observation violates the property (`S3V.FsPathSpec`, independent of the model);
 * DISAGREE  — the implementation's result code contradicts the model's input-determined outcome, or a changed /
               revealed node is not covered by the model's `plan` (the may-touch table), or a successful call did
               not touch the path the model computes for it;
+              with `sys`: a system call is not predicted by the table and its named rules (`plan-does-not-predict-syscall`,
+              `construction-does-not-predict-syscall`);
 * AGREE     — otherwise; the class names the branch.
 -/
 open S3V S3V.FsPath
@@ -221,15 +230,82 @@ def deleteOfNothing (root : Bytes) (o : Op) (p : Bytes) : Bool :=
   | .deleteObject .. => !(layoutObjectNodes.any fun r => components (root ++ 47 :: sb r) == components p)
   | _ => false
 
+/-! ## system-call level (`sys` field) -/
+
+structure SysAcc where
+  phase : Char
+  kind : Char
+  path : Bytes
+
+def parseSysAcc (outerB : Bytes) (s : String) : Option SysAcc :=
+  match s.splitOn ":" with
+  | [pk, p] =>
+    match pk.toList with
+    | [ph, k] =>
+      if !("rlcwd".toList.contains k) || !("no".toList.contains ph) then none
+      else
+        let path? : Option Bytes :=
+          match p.toList with
+          | '@' :: rest => (hexDecode (String.ofList rest)).map fun rel => if rel = [] then outerB else outerB ++ 47 :: rel
+          | _ => hexDecode p
+        path?.map fun path => { phase := ph, kind := k, path := path }
+    | _ => none
+  | _ => none
+
+def specKind : Char → FsPathSpec.SysKind
+  | 'r' => .read | 'l' => .list | 'd' => .delete | 'c' => .create | _ => .write
+
+def modelKind : Char → FsPath.SysKind
+  | 'r' => .read | 'l' => .list | 'd' => .delete | 'c' => .create | _ => .write
+
+def showPath (p : Bytes) : String := String.fromUTF8! (ByteArray.mk p.toArray)
+
+/-- owner of a bookkeeping file of the fixture by its name (`none`: the fixture has no such file) -/
+def fixtureOwner (name : Bytes) : Option FsPathSpec.Label :=
+  match fixtureLabel (sb "root/" ++ name) with
+  | .bucketNode => none
+  | l => some l
+
+/-- spec on the system calls: construction accesses by `judgeSysNew`, operation accesses by `judgeSys` -/
+def sysSpecBad (outerB : Bytes) (sc : Option FsPathSpec.Scope) (scans : Bool) (sys : List SysAcc) : Option (String × String) :=
+  let rootP := outerB ++ sb "/root"
+  let cx : FsPathSpec.SysCtx :=
+    { enc := encD, root := FsPathSpec.resolveAbs rootP, fixture := fixtureOwner, scansRoot := scans }
+  sys.findSome? fun a =>
+    let v :=
+      if a.phase = 'n' then FsPathSpec.judgeSysNew cx.root (specKind a.kind) a.path
+      else match sc with
+        | some sc => FsPathSpec.judgeSys cx sc (specKind a.kind) a.path
+        | none => some "adapter-refused-but-touched"
+    v.map fun cls => (cls, s!"syscall {a.phase}{a.kind} {showPath a.path}")
+
+/-- model on the system calls -/
+def sysModelBad (envD : Env) (touches : List Touch) (sys : List SysAcc) : Option (String × String) :=
+  sys.findSome? fun a =>
+    let q := components a.path
+    if a.phase = 'n' then
+      if newAllows envD (modelKind a.kind) q then none
+      else some ("construction-does-not-predict-syscall", s!"{a.kind}:{showPath a.path}")
+    else match sysPredicted envD touches (modelKind a.kind) q with
+      | some _ => none
+      | none => some ("plan-does-not-predict-syscall", s!"{a.kind}:{showPath a.path}")
+
+def scansRootOf : Op → Bool
+  | .listParts .. | .abortMultipartUpload .. => true
+  | _ => false
+
 def judgeCase (outerB cwd : Bytes) (id : String) (i : Inp) (code : String) (changes : List Chg)
-    (revealed : List String) (freshUuid : Bytes) : String :=
+    (revealed : List String) (freshUuid : Bytes) (sys : List SysAcc) : String :=
   let envD : Env := { cwd := cwd, root := outerB ++ sb "/root" }
   let absOf := absOf outerB
   match buildOp i freshUuid with
   | .unmodelled why => unmodelled id why
   | .httpRefused c =>
     if !changes.isEmpty || !revealed.isEmpty then specfail id "adapter-refused-but-touched" s!"code={code}"
-    else if code = c then agree id "http-refused" else disagree id c code
+    else match sysSpecBad outerB none false sys, sysModelBad envD [] (sys.filter (·.phase = 'n')) with
+      | some (cls, d), _ => specfail id cls s!"{i.op} code={code} {d}"
+      | none, some (cls, d) => disagree id cls d
+      | none, none => if code = c then agree id "http-refused" else disagree id c code
   | .op o =>
     let http := i.op.startsWith "http_"
     let sc := scopeOf o
@@ -245,10 +321,12 @@ def judgeCase (outerB cwd : Bytes) (id : String) (i : Inp) (code : String) (chan
         | some rel =>
           (FsPathSpec.judgeReveal sc (FsPathSpec.splitOn 47 rel) (fixtureLabel rel)).map fun cls =>
             (cls, String.fromUTF8! (ByteArray.mk rel.toArray))
-    match bad1, bad2 with
-    | some (cls, d), _ => specfail id cls s!"{i.op} code={code} changed {d}"
-    | none, some (cls, d) => specfail id cls s!"{i.op} code={code} revealed {d}"
-    | none, none =>
+    let bad3 := sysSpecBad outerB (some sc) (scansRootOf o) sys
+    match bad1, bad2, bad3 with
+    | some (cls, d), _, _ => specfail id cls s!"{i.op} code={code} changed {d}"
+    | none, some (cls, d), _ => specfail id cls s!"{i.op} code={code} revealed {d}"
+    | none, none, some (cls, d) => specfail id cls s!"{i.op} code={code} {d}"
+    | none, none, none =>
       -- 2. the model
       let pl := plan envD encD o
       let codeOk :=
@@ -263,10 +341,11 @@ def judgeCase (outerB cwd : Bytes) (id : String) (i : Inp) (code : String) (chan
           match hexDecode r with
           | some rel => !(pl.touches.any fun t => (t.acc == .read || t.acc == .list) && covers envD t.tgt (components (absOf rel)))
           | none => false
-        match uncovered, unread with
-        | some c, _ => disagree id "plan-does-not-cover" s!"{c.kind}:{hexEncode c.rel}"
-        | none, some r => disagree id "plan-does-not-read" r
-        | none, none =>
+        match uncovered, unread, sysModelBad envD pl.touches sys with
+        | some c, _, _ => disagree id "plan-does-not-cover" s!"{c.kind}:{hexEncode c.rel}"
+        | none, some r, _ => disagree id "plan-does-not-read" r
+        | none, none, some (cls, d) => disagree id cls d
+        | none, none, none =>
           let prim := primary envD o
           let primOk :=
             if code ≠ "OK" then true
@@ -295,7 +374,7 @@ def judgeCase (outerB cwd : Bytes) (id : String) (i : Inp) (code : String) (chan
 /-- `FileSystem::new` on a root that holds planted files (`keys` = their names relative to the root): the start-up clean-up
     (`clean_old_tmp_files`) removes the root-level regular files named `.tmp.*.internal.part` and NOTHING else (spec: anything
     else removed or changed is a violation; model: exactly the planted names of that shape are removed) -/
-def judgeNew (id : String) (planted : List Bytes) (changes : List Chg) : String :=
+def judgeNew (outerB cwd : Bytes) (id : String) (planted : List Bytes) (changes : List Chg) (sys : List SysAcc) : String :=
   let pre := sb ".tmp."
   let suf := sb ".internal.part"
   let isTmp (name : Bytes) : Bool := !(name.contains 47) && pre.isPrefixOf name && suf.isSuffixOf name
@@ -306,15 +385,21 @@ def judgeNew (id : String) (planted : List Bytes) (changes : List Chg) : String 
   | none =>
     let removed := changes.filterMap fun c => nameOf c.rel
     let expected := planted.filter isTmp
+    let envD : Env := { cwd := cwd, root := outerB ++ sb "/root" }
+    match sysSpecBad outerB none false sys, sysModelBad envD [] sys with
+    | some (cls, d), _ => specfail id cls s!"fs_new {d}"
+    | none, some (cls, d) => disagree id cls d
+    | none, none =>
     if expected.all (removed.contains ·) && removed.all (expected.contains ·) then agree id "startup-cleanup"
     else disagree id s!"removes {expected.length} planted temporary files" s!"removed {removed.length}"
 
-def judge (fs : List String) : String :=
+def judgeFields (fs : List String) (sysF : String) : String :=
   match fs with
-  | [_comp, id, "fs_new", _, _, _, _, _, _, keys, _, _, "|", _code, changed, _revealed, _upid, _outerH, _cwdH] =>
-    match listHexDecode keys, parseList parseChange changed with
-    | some ks, some chg => judgeNew id ks chg
-    | _, _ => badline id
+  | [_comp, id, "fs_new", _, _, _, _, _, _, keys, _, _, "|", _code, changed, _revealed, _upid, outerH, cwdH] =>
+    let outerB := (hexDecode outerH).getD []
+    match listHexDecode keys, parseList parseChange changed, parseList (parseSysAcc outerB) sysF with
+    | some ks, some chg, some sys => judgeNew outerB ((hexDecode cwdH).getD []) id ks chg sys
+    | _, _, _ => badline id
   | [_comp, id, op, bucket, key, sbk, sk, uid, part, keys, parts, flags, "|", code, changed, revealed, upid,
       outerH, cwdH] =>
     let outerB := (hexDecode outerH).getD []
@@ -326,12 +411,16 @@ def judge (fs : List String) : String :=
       some { op := op, bucket := (← textField bucket), key := (← textField key), srcBucket := (← textField sbk),
              srcKey := (← textField sk), uploadId := (← textField uid), part := (← parseInt? part),
              keys := ks.map substOuter, parts := ps, flags := flags }
-    match inp, parseList parseChange changed, optHexDecode upid with
-    | some i, some chg, some fresh =>
-      judgeCase outerB ((hexDecode cwdH).getD []) id i code chg (if revealed = "" then [] else revealed.splitOn ",") (fresh.getD [])
-    | _, _, _ => badline id
+    match inp, parseList parseChange changed, optHexDecode upid, parseList (parseSysAcc outerB) sysF with
+    | some i, some chg, some fresh, some sys =>
+      judgeCase outerB ((hexDecode cwdH).getD []) id i code chg (if revealed = "" then [] else revealed.splitOn ",") (fresh.getD []) sys
+    | _, _, _, _ => badline id
   | [_comp, id, _, _, _, _, _, _, _, _, _, _, "|", "PANIC"] => specfail id "panic" "the real code panicked"
   | _ :: id :: _ => badline id
   | _ => badline "?"
+
+/-- 19 fields: component `fspath`; 20 fields: component `fspathsys` (the last one is `sys`) -/
+def judge (fs : List String) : String :=
+  if fs.length = 20 then judgeFields (fs.take 19) (fs.getLast?.getD "") else judgeFields fs ""
 
 def main : IO Unit := driveMain judge
